@@ -195,10 +195,12 @@ CHECKS["C01"] = dict(
          "(System/Deliver.v, Client/Norm.v): what a driver publishes in one operation reaches the connected network client exactly "
          "(what_a_driver_publishes_is_delivered), processing commutes with the wire's normalisation, and through every operation that publishes "
          "no BLOB update the client's mirror stays the normalisation of a mirror in sync with the device (the_connected_client_stays_in_sync). "
-         "PARTIAL: operations publishing BLOB updates (two connections, order not determined) and the network client's handshake are composed "
-         "in the system model and VALIDATED by running the real stack (every device state and every client view after every operation, "
+         "The network client's handshake is proved in the system model as well (the_handshake_connects_and_syncs: policies control Never / BLOB "
+         "connection Only, nothing in flight, mirror in sync) and so is every later history of such operations (connected_client_history). "
+         "PARTIAL: operations publishing BLOB updates (two connections, order not determined) and deployments with several drivers or clients "
+         "are composed in the system model and VALIDATED by running the real stack (every device state and every client view after every operation, "
          "generated definitions incl. inheritance) plus a model-free oracle, not proved. REFUTED for BLOB payloads (known finding K2).",
-    note=NOTE_BASE + "Partial: operations that publish BLOB updates and the network client's handshake are validated by correspondence, not proved end to end. Known findings K2 (BLOB payload after a definition) and K1-C01 (messages above the 2048-character threshold).",
+    note=NOTE_BASE + "Partial: operations that publish BLOB updates, and several drivers/clients at once, are validated by correspondence, not proved end to end. Known findings K2 (BLOB payload after a definition) and K1-C01 (messages above the 2048-character threshold).",
     technique="Coq proof (handshake, every operation and every history keep the mirror in sync, for every handler-free device definition) + system-level correspondence of the composed model with the real driver/router/transport/client stack",
     design="4/C01")
 CHECKS["C08"] = dict(
